@@ -8,6 +8,7 @@
 import WR.C04.Spec
 import WR.C04.Lemmas
 import WR.Gen.C04Tables
+import WR.C04.RefTable
 namespace WR.Props.C04
 open WR.C04
 
@@ -92,6 +93,41 @@ theorem gen_borderWidth_reads_its_style :
      ("border-right-width", some "border-right-style"), ("border-top-width", some "border-top-style"),
      ("column-rule-width", some "column-rule-style"), ("outline-width", some "outline-style")] := by
   decide +kernel
+
+/-! ## the code's tables against the hand-written reference (WR/C04/SpecTable.lean) -/
+
+set_option maxRecDepth 100000 in
+/-- **gen_inherited_matches_spec** — every property of the code is known to the reference, and its
+    `Inherited` flag (css/properties/datas.go) equals the reference's, except for the properties the
+    reference leaves unspecified (listed by `gen_inherited_unspecified`). -/
+theorem gen_inherited_matches_spec :
+    ((WR.Gen.C04Tables.rows.toList.drop 1).all fun r =>
+      match specInheritedOf r.name with
+      | some (some b) => r.inh == b
+      | some none => true
+      | none => false) = true := by decide +kernel
+
+set_option maxRecDepth 100000 in
+/-- the properties excluded from `gen_inherited_matches_spec` -/
+theorem gen_inherited_unspecified :
+    (specInherited.filter (fun e => e.2.isNone)).map (·.1) =
+      ["anchor", "block-ellipsis", "image-orientation", "lang", "link"] := by decide +kernel
+
+set_option maxRecDepth 100000 in
+/-- initial values of the reviewed subset: the code's initial value is the specification's -/
+theorem gen_initial_matches_spec :
+    (specInitial.all fun e =>
+      match WR.Gen.C04Tables.rows.toList.find? (fun r => r.name == e.1) with
+      | some r => r.init == e.2
+      | none => false) = true := by decide +kernel
+
+set_option maxRecDepth 100000 in
+/-- the table the driver runs the model with (reference `inherited` flags) satisfies the
+    hypotheses of the theorems above, so they all apply to what the judge executes -/
+theorem ref_table_wf : WR.C04.refTable.WF := by
+  have h1 : WR.C04.refTable.ck = WR.Gen.C04Tables.table.ck := rfl
+  have h2 : WR.C04.refTable.pFontSize = WR.Gen.C04Tables.table.pFontSize := rfl
+  exact ⟨by rw [h1, h2]; exact gen_table_wf.fontSize_ck, by rw [h1]; exact gen_table_wf.borderStyle_ck⟩
 
 /-! ## defaulting -/
 
